@@ -4,6 +4,7 @@ import (
 	"fmt"
 	"math/rand"
 	"reflect"
+	"strconv"
 	"strings"
 	"unicode"
 
@@ -17,6 +18,11 @@ import (
 type seg struct {
 	text   string
 	quoted bool
+	// exp says where unquoted text comes from: 0 a literal of the word, 1 the
+	// value of a variable ($vN), 2 the word of ${uN-text} with uN unset, 3 the
+	// length of a variable (${#wN}, text is the decimal length).  The results of
+	// expansions that are not inside double quotes are split like literal text.
+	exp int
 }
 
 // refSplit returns the fields of the word under the given IFS (nil: unset).
@@ -218,8 +224,8 @@ func refExpand(segs []seg, ifs *string) []string {
 // ---- driving the real code ----
 
 var segKinds = []seg{
-	{"a", false}, {" ", false}, {":", false}, {" b", false}, {"c:", false},
-	{"", true}, {"x y", true}, {":", true}, {"é:日", false}, {"\t", false},
+	{"a", false, 0}, {" ", false, 0}, {":", false, 0}, {" b", false, 0}, {"c:", false, 0},
+	{"", true, 0}, {"x y", true, 0}, {":", true, 0}, {"é:日", false, 0}, {"\t", false, 0},
 }
 
 type ifsSetting struct {
@@ -236,7 +242,18 @@ var ifsSettings = []ifsSetting{
 
 func wordOf(segs []seg) ast.Word {
 	var w ast.Word
-	for _, s := range segs {
+	for i, s := range segs {
+		switch s.exp {
+		case 1:
+			w = append(w, &ast.ParamExp{Name: &ast.Lit{Value: fmt.Sprintf("v%d", i)}})
+			continue
+		case 2:
+			w = append(w, &ast.ParamExp{Braces: true, Name: &ast.Lit{Value: fmt.Sprintf("u%d", i)}, Op: "-", Word: ast.Word{&ast.Lit{Value: s.text}}})
+			continue
+		case 3:
+			w = append(w, &ast.ParamExp{Braces: true, Name: &ast.Lit{Value: fmt.Sprintf("w%d", i)}, Op: "#"})
+			continue
+		}
 		if s.quoted {
 			// single quotes: one literal, even when empty
 			w = append(w, &ast.Quote{Tok: "'", Value: ast.Word{&ast.Lit{Value: s.text}}})
@@ -258,6 +275,15 @@ func checkSplit(segs []seg, st ifsSetting) {
 		env.Unset("IFS")
 	} else {
 		env.Set("IFS", *st.val)
+	}
+	for i, s := range segs {
+		switch s.exp {
+		case 1:
+			env.Set(fmt.Sprintf("v%d", i), s.text)
+		case 3:
+			n, _ := strconv.Atoi(s.text)
+			env.Set(fmt.Sprintf("w%d", i), strings.Repeat("x", n))
+		}
 	}
 	var got []string
 	var err error
@@ -308,6 +334,32 @@ func runSplit(tier string, seed int64) (string, bool) {
 		}
 	})
 	addSample(fmt.Sprintf("Expand(%q, 0) with IFS %s", all[len(all)/3], ifsSettings[3].name))
+	// results of expansions outside double quotes are split like literal text:
+	// every word of <= 3 segments over literals, a quoted colon, $v, ${u-text}
+	// and ${#w}, under four IFS values (one of them a digit)
+	expKinds := []seg{
+		{"a", false, 0}, {":", false, 0}, {":", true, 0}, {"1", false, 0},
+		{"b:c", false, 1}, {"", false, 1}, {"d:e f", false, 2}, {"11", false, 3}, {"101", false, 3},
+	}
+	expIFS := []ifsSetting{{"default", strp(" \t\n")}, {"colon", strp(":")}, {"space-colon", strp(" :")}, {"one", strp("1")}, {"zero-one", strp("01")}}
+	var all2 [][]seg
+	var rec2 func(cur []seg)
+	rec2 = func(cur []seg) {
+		all2 = append(all2, append([]seg{}, cur...))
+		if len(cur) == 3 {
+			return
+		}
+		for _, k := range expKinds {
+			rec2(append(cur, k))
+		}
+	}
+	rec2(nil)
+	parallel(len(all2), func(i int) {
+		for _, st := range expIFS {
+			checkSplit(all2[i], st)
+		}
+	})
+	addSample(fmt.Sprintf("Expand(%q, 0) with IFS %s (expansion family)", all2[len(all2)/2], expIFS[3].name))
 	// seeded random longer words
 	rng := rand.New(rand.NewSource(seed))
 	n := 20000
@@ -318,5 +370,5 @@ func runSplit(tier string, seed int64) (string, bool) {
 		}
 		checkSplit(segs, ifsSettings[rng.Intn(len(ifsSettings))])
 	}
-	return fmt.Sprintf("exhaustive: words of <= %d segments over %d segment kinds x %d IFS settings; plus %d seeded random words of <= 9 segments", maxSeg, len(segKinds), len(ifsSettings), n), true
+	return fmt.Sprintf("exhaustive: words of <= %d segments over %d segment kinds x %d IFS settings; words of <= 3 segments over 9 kinds that include $v, ${u-text} and ${#w} x 5 IFS settings (one with digits); plus %d seeded random words of <= 9 segments", maxSeg, len(segKinds), len(ifsSettings), n), true
 }
